@@ -37,8 +37,9 @@ VARIABLES l,      \* next line of Tr
           div,    \* lines at which the real code left the specification
           pols,   \* the live policies of the session: policy id -> policy
           wfail,  \* a destination write of the current call has failed
-          last    \* the last tag whose attributes went through sanitizeAttrs: [n, as, res] (n = "" if none yet)
-tvars == <<pol, st, inp, out, l, div, pols, wfail, last>>
+          last,   \* the last tag whose attributes went through sanitizeAttrs: [n, as, res] (n = "" if none yet)
+          pv      \* property failures observed on the recorded execution: sequence of <<line, property id>>
+tvars == <<pol, st, inp, out, l, div, pols, wfail, last, pv>>
 
 NoTag == [n |-> "", as |-> <<>>, res |-> <<>>]
 
@@ -54,7 +55,7 @@ Resync(i) == IF i > Len(Tr) THEN i
              ELSE IF Tr[i].ev \in {"call", "reset", "build"} THEN i
              ELSE Resync(i + 1)
 
-TraceInit == pol = Blank /\ st = St0 /\ inp = <<>> /\ out = <<>> /\ l = 1 /\ div = <<>> /\ pols = <<>> /\ wfail = FALSE /\ last = NoTag
+TraceInit == pol = Blank /\ st = St0 /\ inp = <<>> /\ out = <<>> /\ l = 1 /\ div = <<>> /\ pols = <<>> /\ wfail = FALSE /\ last = NoTag /\ pv = <<>>
 
 Diverge == /\ div' = Append(div, l)
            /\ l' = Resync(l + 1)
@@ -105,7 +106,21 @@ OnRet(e) ==
   THEN l' = l + 1 /\ UNCHANGED <<pol, st, inp, out, div, pols, wfail, last>>
   ELSE Diverge
 
-TraceNext ==
+\* the listed properties, evaluated on the recorded execution itself (real tokens read, real tokens written,
+\* real attribute lists): which of them fail in the state (p, i, o, lt)
+Checks(p, i, o, lt) ==
+  LET tag == CheckAttrs /\ lt.n # "" /\ ~p.unsafe
+  IN << <<"C01", I01(p, o)>>, <<"C05", I05(p, o) /\ I05body(p, i, o)>>, <<"C02", I02bare(p, o)>>,
+        <<"C06", CheckAttrs => I06(p, i, o)>>, <<"C07", CheckAttrs => I07(p, i, o)>>,
+        <<"C08", CheckAttrs => I08(p, i, o)>>, <<"C09", CheckAttrs => I09(p, i, o)>>,
+        <<"C02", tag => I02(p, lt.n, lt.as, lt.res)>>, <<"C03", tag => I03(p, lt.n, lt.res)>>,
+        <<"C10", tag => I10(p, lt.n, lt.res)>>, <<"C11", tag => I11(p, lt.n, lt.res)>>,
+        <<"C12", tag => I12(p, lt.n, lt.res)>>, <<"C07", tag => I07attrs(p, lt.n, lt.as, lt.res)>> >>
+Failed(p, i, o, lt) == LET c == Checks(p, i, o, lt)
+                           f == SelectSeq(c, LAMBDA x : ~x[2])
+                       IN  [k \in DOMAIN f |-> <<l, f[k][1]>>]
+
+TraceStep ==
   /\ l <= Len(Tr)
   /\ LET e == Tr[l]
      IN  CASE e.ev = "reset" -> OnReset(e)
@@ -114,30 +129,13 @@ TraceNext ==
            [] e.ev = "tok"   -> OnTok(e)
            [] e.ev = "ret"   -> OnRet(e)
 
+\* a property failure is recorded (not fatal: the rest of the trace is still validated); one entry per line
+TraceNext == TraceStep /\ pv' = pv \o Failed(pol', inp', out', last')
+
 TraceSpec == TraceInit /\ [][TraceNext]_tvars
 
 \* printed once, in the final state; the runner reads it
-TraceEnd == l = Len(Tr) + 1 => PrintT("TRACE-END " \o ToString(Len(Tr)) \o " " \o ToJson(div))
+TraceEnd == l = Len(Tr) + 1 => PrintT("TRACE-END " \o ToString(Len(Tr)) \o " " \o ToJson(div) \o " PV " \o ToJson(pv))
 
-\* the properties, evaluated in every state of every recorded execution
-TI01 == I01(pol, out)
-TI05 == I05(pol, out)
-TI02bare == I02bare(pol, out)
 TStack == StackInv(pol, st)
-
-\* whole-call properties on the real execution so far (they need the complete fact tables: CheckAttrs runs)
-TI06 == CheckAttrs => I06(pol, inp, out)
-TI07 == CheckAttrs => I07(pol, inp, out)
-TI08 == CheckAttrs => I08(pol, inp, out)
-TI09 == CheckAttrs => I09(pol, inp, out)
-TI05body == I05body(pol, inp, out)
-
-\* the attribute properties on the real result of every sanitizeAttrs call
-TagChecked == CheckAttrs /\ last.n # "" /\ ~pol.unsafe
-TI02 == TagChecked => I02(pol, last.n, last.as, last.res)
-TI03 == TagChecked => I03(pol, last.n, last.res)
-TI10 == TagChecked => I10(pol, last.n, last.res)
-TI11 == TagChecked => I11(pol, last.n, last.res)
-TI12 == TagChecked => I12(pol, last.n, last.res)
-TI07attrs == TagChecked => I07attrs(pol, last.n, last.as, last.res)
 =============================================================================
